@@ -162,6 +162,8 @@ def run(ctx):
         inputs.append(("gen%d" % i, pdbgen.text(lines)))
     # same-label twins coupled to a third group: several determinants with one label next to each other in the swapped lists
     inputs.append(("1FTJ-LYS210-210A", pdbgen.text(pdbgen.salt_bridge_twins())))
+    # a pair that is coupled in the second conformation only: coupling marks must not leak between conformations
+    inputs.append(("1HPX-ASP25B-two-rotamers", pdbgen.text(pdbgen.coupled_in_one_conformation())))
     off_bad, star_bad, npairs = [], [], 0
     for name, text in inputs:
         on = observe.run(text, [], want_text=True)
@@ -182,9 +184,16 @@ def run(ctx):
                 off_bad.append((name, c, d[:3], text))
         # symmetry and stars on the real objects
         for cname, conf in on.mol.conformations.items():
+            own = {id(x) for x in conf.groups}
             for g in conf.groups:
                 for h in g.non_covalently_coupled_groups:
-                    if not any(x is g for x in h.non_covalently_coupled_groups) and not any(x.label == g.label for x in h.non_covalently_coupled_groups):
+                    if cname != "AVR":
+                        # inside a conformation: the partner is a group of this conformation and lists the group back, by identity
+                        if id(h) not in own:
+                            star_bad.append((name, cname, "%s is marked coupled to %s, which is a group of another conformation" % (g.label, h.label), text))
+                        elif not any(x is g for x in h.non_covalently_coupled_groups):
+                            star_bad.append((name, cname, "coupling %s -> %s not mirrored" % (g.label, h.label), text))
+                    elif not any(x is g for x in h.non_covalently_coupled_groups) and not any(x.label == g.label for x in h.non_covalently_coupled_groups):
                         star_bad.append((name, cname, "coupling %s -> %s not mirrored" % (g.label, h.label), text))
                 row = g.get_determinant_string(False)
                 has_star = bool(re.match(r"^.{%d} *-?\d+\.\d\d\*" % len(g.label), row)) if row else False
